@@ -13,6 +13,7 @@ import (
 	yae "github.com/goghcrow/yae"
 	"github.com/goghcrow/yae/conv"
 	"github.com/goghcrow/yae/simrt"
+	"github.com/goghcrow/yae/types"
 	"github.com/goghcrow/yae/val"
 )
 
@@ -816,6 +817,10 @@ type Step7 struct {
 	// RawPut: the previous step's raw *val.Env object is modified in place (Put of this
 	// binding) and passed again.
 	RawPut *Field `json:"raw_put,omitempty"`
+	// RawBot: the environment is passed as a raw *val.Env in which this list / map binding
+	// holds the value of the empty literal ([] : list[bottom], [:] : map[bottom,bottom]),
+	// as a host program gets it when it feeds the result of one expression into another.
+	RawBot string `json:"raw_bot,omitempty"`
 }
 
 type Hist7 struct {
@@ -848,6 +853,27 @@ func genHist7(r *rng) *Hist7 {
 		}
 		st.Env = cur
 		h.Steps = append(h.Steps, st)
+		// at most ONE follow-up per step (they refer to "the previous step's object")
+		// a raw environment holding the value of an empty literal for a list / map binding
+		if r.chance(0.12) {
+			followed := false
+			var cands []string
+			for _, b := range h.A.Binds {
+				if (b.V.K == "list" || b.V.K == "map") && !b.Nil && b.V.Bad == "" {
+					cands = append(cands, b.Name)
+				}
+			}
+			if len(cands) > 0 {
+				var ne *Env7
+				cloneVT(h.A, &ne)
+				ne.Raw = true
+				h.Steps = append(h.Steps, &Step7{Muts: []string{"rawbot"}, Env: ne, RawBot: cands[r.intn(len(cands))]})
+				followed = true
+			}
+			if followed {
+				continue
+			}
+		}
 		// retry with the same object / modify the same raw object in place
 		if r.chance(0.25) {
 			again := &Step7{Muts: []string{"again"}, Again: true}
@@ -984,8 +1010,20 @@ func runHist7(h *Hist7, x *evalCtx) hist7Result {
 			if err != nil {
 				harnessFatal("c07: cannot build B%d: %v", i, err)
 			}
+			if st.RawBot != "" {
+				if re, ok := hostB.(*val.Env); ok {
+					if old, ok := re.Get(st.RawBot); ok && old.Type.Kind == types.KMap {
+						re.Put(st.RawBot, val.Map(types.Map(types.Bottom, types.Bottom).Map()))
+					} else {
+						re.Put(st.RawBot, val.List(types.List(types.Bottom).List(), 0))
+					}
+				}
+			}
 			prevHost = hostB
 			outs[i].accept, outs[i].why = conforms(h.A, st.Env)
+			if st.RawBot != "" {
+				outs[i].accept, outs[i].why = false, "binding "+st.RawBot+" holds an empty-literal value (element type bottom), not the compiled element type"
+			}
 			outs[i].o = x.observe(false, func(o *obs) {
 				v, _, err := callWith(h.Spec, c, hostB)
 				valObs(o, v, err)
@@ -1061,7 +1099,7 @@ func runHist7(h *Hist7, x *evalCtx) hist7Result {
 }
 
 // dominant names the mutation a violation is attributed to in its signature.
-var mutPriority = []string{"rawput", "again", "bad", "hetero", "empty-retype", "drop", "retype-top", "retype-deep", "field-add", "field-remove", "field-rename", "nil-flip",
+var mutPriority = []string{"rawbot", "rawput", "again", "bad", "hetero", "empty-retype", "drop", "retype-top", "retype-deep", "field-add", "field-remove", "field-rename", "nil-flip",
 	"reorder", "reorder-top", "raw", "array", "empty", "carrier", "ptrflip", "numkind", "maybe-flip", "extra", "contents", "same"}
 
 func dominant(muts []string) string {
